@@ -169,6 +169,20 @@ func c10Run(t *testing.T, s *sim.Scn) *sim.Outcome {
 		switch kind {
 		case "restart":
 			restarts++
+			// the operator may change the configured queue size between runs
+			switch op.A % 4 {
+			case 1:
+				if bound > 1 {
+					bound = bound / 2
+					o.Count("restart-with-smaller-bound", 1)
+				}
+			case 2:
+				bound += 2
+				o.Count("restart-with-larger-bound", 1)
+			case 3:
+				bound = 1
+				o.Count("restart-with-smaller-bound", 1)
+			}
 			disk.Fence().Kill()
 			if seq, err = open(); err != nil {
 				o.Fail("C10/cannot-reopen", "", i, err.Error(), "reopens")
@@ -374,7 +388,7 @@ func c10Gen(r *rand.Rand, tier string) *sim.Scn {
 		case x < 15:
 			op = sim.Op{K: "next"}
 		case x < 17:
-			op = sim.Op{K: "restart"}
+			op = sim.Op{K: "restart", A: []int64{0, 0, 0, 1, 2, 3}[r.IntN(6)]}
 		case x < 18:
 			op = sim.Op{K: "submit-foreign", B: r.Int64N(4)}
 		default:
@@ -533,7 +547,7 @@ func TestC10(t *testing.T) {
 	sim.Main(t, &sim.Check{
 		ID:    "C10",
 		Level: "exploration",
-		Rule: "seeded histories of submit (4 contents x 3 sizes, so identical batches recur; empty; foreign chain id; beyond the bound), next, restart (new sequencer on the durable image) and a crash cutting the durable write inside submit/next, " +
+		Rule: "seeded histories of submit (4 contents x 3 sizes, so identical batches recur; empty; foreign chain id; beyond the bound), next, restart (new sequencer on the durable image, with the same, a smaller or a larger configured bound) and a crash cutting the durable write inside submit/next, " +
 			"checked operation by operation against a FIFO model (a set of candidate queues while an operation cut by a crash is undetermined), plus a final restart-and-drain; " +
 			"each scenario also runs one concurrent history (4 client tasks, interleaved at every datastore operation by a seeded park-and-release scheduler; shared and unique contents; then a restart and a drain) checked with porcupine against the same FIFO model. " +
 			"distinct = distinct scenario hash; non-trivial = at least 2 batches handed out and at least 2 restarts/crashes",
